@@ -58,10 +58,14 @@ def _load():
     here = os.path.dirname(os.path.abspath(__file__))
     for path in sorted(glob.glob(os.path.join(here, "lanes.d", "C*.py"))):
         pid = os.path.splitext(os.path.basename(path))[0]
-        spec = importlib.util.spec_from_file_location("lanes_d_" + pid, path)
-        mod = importlib.util.module_from_spec(spec)
-        spec.loader.exec_module(mod)
-        PROPS[pid] = mod.PROP
+        try:
+            spec = importlib.util.spec_from_file_location("lanes_d_" + pid, path)
+            mod = importlib.util.module_from_spec(spec)
+            spec.loader.exec_module(mod)
+            PROPS[pid] = mod.PROP
+        except Exception as e:  # one broken lane file must not take the other properties down
+            import sys
+            sys.stderr.write("[lanes] %s does not load: %r\n" % (path, e))
 
 
 if not globals().get("_LOADING"):
